@@ -716,17 +716,63 @@ def indication_histories(quick):
     return out
 
 
-def run_indication_history(aw, hist, names, attrs, cccds):
+def lifecycle_histories(quick):
+    """Histories with bearer life-cycle operations: at most two of eatt_open /
+    eatt_close_peer / eatt_close_srv, interleaved with indications, confirmations,
+    a re-subscription on the fixed bearer and time; each also with the extra bearer
+    already open at the start."""
+    ops = ('indA', 'indAB', 'cfm@att', 'cfm@eatt2', 'sub@att', 'wait30') + LIFE_OPS
+    out = []
+    for d in range(1, (4 if quick else 5) + 1):
+        for h in itertools.product(ops, repeat=d):
+            n_life = sum(o in LIFE_OPS for o in h)
+            if not any(o.startswith('ind') for o in h) or n_life > 2:
+                continue
+            if n_life:
+                out.append(h)
+            if any(o.startswith('eatt_close') for o in h) or 'cfm@eatt2' in h:
+                out.append(('eatt_open',) + h)
+    return out
+
+
+LIFE_OPS = ('eatt_open', 'eatt_close_peer', 'eatt_close_srv')
+X = 'eatt2'  # name of the additional EATT bearer that life-cycle histories open and close
+
+
+def run_indication_history(aw, hist, names, attrs, cccds, probe=False):
     """The invariant is judged from the wire only: per bearer, Handle Value Indications
     (0x1D) sent minus confirmations (0x1E) delivered, an indication also being released
     when the 30 s transaction timeout has passed since it was sent.
     The replies to the peer's own PDUs are judged with the ordinary C10 oracle.
+    Life-cycle ops open / close (peer- or server-initiated L2CAP disconnect) a further
+    EATT bearer 'eatt2'; a closed bearer is no longer watched.  With probe=True the
+    history ends with a service probe: after everything has drained, one notification and
+    one indication of characteristic A must still reach every open bearer whose CCCD (as
+    last written by the peer on that bearer) asks for it.
     Returns (violation message or None, [(check, signature, message)], observation tuple)."""
     loop = aw.loop
     srv = aw.server
     tasks = []
     by = {'att': names[0], 'eatt': names[1]}
+    names = list(names)  # bearers watched right now (eatt2 comes and goes)
     sent_at = {n: [] for n in names}  # send times of indications not yet released
+    cccd_a = {n: 3 for n in names}  # reference: A's CCCD value as last written by the peer on each bearer
+
+    def open_x():
+        aw.open_eatt(X, 23)
+        names.append(X)
+        by[X] = X
+        sent_at[X] = []
+        for h in cccds:
+            if aw.inject(X, A.req_write(h, b'\x03\x00')) != [b'\x13']:
+                raise core.HarnessError('CCCD write on the new EATT bearer refused')
+        cccd_a[X] = 3
+
+    def close_x(who):
+        aw.close_eatt(X, who)
+        names.remove(X)
+        del by[X], sent_at[X], cccd_a[X]
+
     obs = []
     worst = None
     problems = []
@@ -765,6 +811,14 @@ def run_indication_history(aw, hist, names, attrs, cccds):
                 absorb()
             loop.advance(target - loop.time())
             absorb()
+        elif op in LIFE_OPS:
+            if op == 'eatt_open' and X not in names:
+                open_x()
+            elif op != 'eatt_open' and X in names:
+                close_x('peer' if op == 'eatt_close_peer' else 'server')
+            absorb()
+        elif op.split('@')[1] not in by:
+            pass  # peer PDU for a bearer that is not open: nothing can be sent
         else:
             kind, b = op.split('@')
             n = by[b]
@@ -780,6 +834,10 @@ def run_indication_history(aw, hist, names, attrs, cccds):
             else:
                 groups = [[single[kind]]]
             touched_cccd = touched_cccd or any(p[0] == 0x12 and (p[1] | p[2] << 8) in cccds for g in groups for p in g)
+            for g in groups:
+                for p in g:
+                    if p[0] == 0x12 and (p[1] | p[2] << 8) == cccds[0]:
+                        cccd_a[n] = p[3]
             for grp in groups:
                 got = []
                 for j, p in enumerate(grp):
@@ -798,10 +856,10 @@ def run_indication_history(aw, hist, names, attrs, cccds):
                     problems.append((check, dict(extra, bearer=b, ops=kind.split(':')[-1], indication_pending=bool(state_before[names.index(n)])),
                                      f'step {i} ({op}) of {list(hist)}: {msg}'))
             absorb()
-        state = tuple(len(sent_at[n]) for n in names)
+        state = tuple(len(sent_at[n]) for n in names) + ((-1,) if X not in names else ())
         obs.append(state)
         if worst is None and max(state) > 1:
-            worst = f'after step {i} ({op}) of {list(hist)}: unconfirmed indications per bearer {dict(zip(("att", "eatt"), state))}'
+            worst = f'after step {i} ({op}) of {list(hist)}: unconfirmed indications per bearer {dict(zip(("att", "eatt", "eatt2"), state))}'
     # drain: let every pending indication time out so the next history starts clean
     for _ in range(2 * len(tasks) + 2):
         if all(t.done() for t in tasks):
@@ -810,7 +868,33 @@ def run_indication_history(aw, hist, names, attrs, cccds):
     loop.run_quiescent()
     if not all(t.done() for t in tasks):
         raise core.HarnessError(f'indication history {hist} did not drain')
-    if touched_cccd:
+    if probe:
+        # are the subscriptions of the bearers that are still open still served?
+        for n in names:
+            aw.take(n)
+        for what, opcode, bit, api in (('notification', 0x1B, 1, srv.notify_subscribers), ('indication', 0x1D, 2, srv.indicate_subscribers)):
+            t = loop.create_task(api(attrs[0]))
+            loop.run_quiescent()
+            for n in names:
+                got = [p for p in aw.take(n) if p[0] == opcode]
+                b = next(k for k, v in by.items() if v == n)
+                if cccd_a[n] & bit and not got:
+                    life = sorted({o for o in hist if o in LIFE_OPS})
+                    problems.append(('subscription_not_served', {'bearer': 'eatt' if b == 'eatt2' else b, 'kind': what, 'after': life},
+                                     f'after {list(hist)} (all drained) bearer {b} is subscribed to {what}s of characteristic A (CCCD 0x{cccd_a[n]:02X} written by the peer) but {api.__name__} sent it nothing'))
+                if got and opcode == 0x1D:
+                    aw.inject(n, bytes([A.OP_CONFIRMATION]))
+            loop.run_quiescent()
+            for _ in range(3):
+                if t.done():
+                    break
+                loop.advance(IND_TIMEOUT + 0.001)
+            tasks.append(t)
+    if X in names:
+        close_x('peer')
+        touched_cccd = True
+    if touched_cccd or probe:
+        aw.restore()  # forget subscriptions of bearers that are gone (the server keeps them; not C10's business)
         subscribe_all(aw, names, bits=3)
     for n in names:
         aw.take(n)
@@ -839,11 +923,31 @@ def setup_indication_world(aw, st=None):
     return names, attrs, cccds
 
 
+def w_lifecycle(hists):
+    st = core.Stats('indications')
+    with A.AttWorld() as aw:  # channels are opened and closed: a world of its own
+        names, attrs, cccds = setup_indication_world(aw, st)
+        for hist in hists:
+            bad, problems, obs = run_indication_history(aw, hist, names, attrs, cccds, probe=True)
+            st.case(obs)
+            st.count('lifecycle_histories')
+            st.add('max_outstanding', max((max(s) for s in obs[0]), default=0))
+            if bad:
+                st.violation('two_unconfirmed_indications', indication_signature(hist, bad), bad, {'mode': 'indications', 'hist': list(hist), 'probe': True})
+            for check, sig, msg in problems:
+                st.violation(check, sig, msg, {'mode': 'indications', 'hist': list(hist), 'probe': True})
+    if hists:
+        st.samples.append({'lifecycle_history': list(hists[len(hists) // 2])})
+    return st
+
+
 def indication_signature(hist, bad):
     step = int(bad.split('after step ')[1].split(' ')[0])
     before = set()
     for o in hist[:step]:
-        if '@' in o:
+        if o in LIFE_OPS:
+            before.add(o)
+        elif '@' in o:
             for part in o.split('@')[0].replace('b2b:', '').split('+'):
                 if part != 'cfm':
                     before.add({'offA': 'off', 'subA': 'sub'}.get(part, part))
@@ -1085,7 +1189,11 @@ def run(ctx: core.Context) -> int:
         st = ctx.sub('indications')
         for r in core.pmap(w_indications, core.split(hists, ctx.jobs * 4), ctx.jobs):
             st.merge(r)
+        life = lifecycle_histories(quick)
+        for r in core.pmap(w_lifecycle, core.split(life, ctx.jobs * 2), ctx.jobs):
+            st.merge(r)
         aggregate(st)
+        ctx.log(f'indications: life-cycle histories={len(life)}')
         ctx.log(f'indications: histories={len(hists)} distinct observations={len(st.distinct)} max outstanding seen={sorted(st.sets.get("max_outstanding", []))}')
 
     if want('eatt_l2cap'):
@@ -1176,7 +1284,7 @@ def replay_one(check, c):
     elif mode == 'indications':
         with A.AttWorld() as aw:
             names, attrs, cccds = setup_indication_world(aw)
-            bad, problems, _ = run_indication_history(aw, tuple(c['hist']), names, attrs, cccds)
+            bad, problems, _ = run_indication_history(aw, tuple(c['hist']), names, attrs, cccds, probe=bool(c.get('probe')))
             if bad and check == 'two_unconfirmed_indications':
                 msgs.append(bad)
             msgs += [m for chk, _, m in problems if chk == check]
